@@ -307,6 +307,9 @@ func (p cfgPath) Remove(cfg *Config, opt *options) (bool, error) {
 	// resolve config object in case we deal with references
 	tmp, err := cur.toConfig(opt)
 	if err != nil {
+		if _, ok := err.(Error); !ok {
+			return false, raiseExpectedObject(opt, cur)
+		}
 		return false, err
 	}
 	cur = cfgSub{tmp}
